@@ -356,9 +356,10 @@ def lifespan_case(draw: Any) -> Dict[str, Any]:
     for i in range(n):
         mounts.append({
             "startup_delay": draw(st.integers(0, 3)),
-            "startup_completes": draw(st.sampled_from([True, True, True, False])),
+            # True: completes; False: never answers; "failed": says lifespan.startup.failed
+            "startup_completes": draw(st.sampled_from([True, True, True, True, False, "failed"])),
             "shutdown_delay": draw(st.integers(0, 3)),
-            "shutdown_completes": draw(st.sampled_from([True, True, True, False])),
+            "shutdown_completes": draw(st.sampled_from([True, True, True, True, False, "failed"])),
         })
     return {"mounts": mounts, "variant": draw(st.sampled_from(["asyncio", "trio"]))}
 
@@ -378,6 +379,9 @@ def run_lifespan(case: Dict[str, Any]) -> CaseInfo:
             await _sleep_steps(variant, spec["startup_delay"])
             if not spec["startup_completes"]:
                 await _block_forever(variant)
+            if spec["startup_completes"] == "failed":
+                await send({"type": "lifespan.startup.failed", "message": "scripted"})
+                return
             state["startup_done"].add(i)
             await send({"type": "lifespan.startup.complete"})
             m = await receive()
@@ -385,6 +389,9 @@ def run_lifespan(case: Dict[str, Any]) -> CaseInfo:
             await _sleep_steps(variant, spec["shutdown_delay"])
             if not spec["shutdown_completes"]:
                 await _block_forever(variant)
+            if spec["shutdown_completes"] == "failed":
+                await send({"type": "lifespan.shutdown.failed", "message": "scripted"})
+                return
             state["shutdown_done"].add(i)
             await send({"type": "lifespan.shutdown.complete"})
         return app
@@ -395,8 +402,8 @@ def run_lifespan(case: Dict[str, Any]) -> CaseInfo:
     async def up_send(m: dict) -> None:
         upstream.append((m["type"], set(state["startup_done"]), set(state["shutdown_done"])))
 
-    all_start = all(s["startup_completes"] for s in case["mounts"])
-    all_stop = all_start and all(s["shutdown_completes"] for s in case["mounts"])
+    all_start = all(s["startup_completes"] is True for s in case["mounts"])
+    all_stop = all_start and all(s["shutdown_completes"] is True for s in case["mounts"])
 
     if variant == "asyncio":
         import asyncio
@@ -458,7 +465,10 @@ def run_lifespan(case: Dict[str, Any]) -> CaseInfo:
         raise Violation("lifespan_shutdown_early", f"sent when only {stops[0][2]} had completed",
                         variant=variant)
     return CaseInfo(n >= 2, [f"mounts={n}", "variant=" + variant,
-                             "all_complete" if all_stop else "some_hang"])
+                             "all_complete" if all_stop else "some_hang_or_fail"]
+                    + (["a_mount_failed"] if any("failed" in (m["startup_completes"],
+                                                              m["shutdown_completes"])
+                                                 for m in case["mounts"]) else []))
 
 
 async def _sleep_steps(variant: str, k: int) -> None:
